@@ -212,6 +212,21 @@ func OpStaticCopyTo(o *Out, s SrcSpec, dk string, dstForm string) {
 		switch dstForm {
 		case "p":
 			dp = reflect.New(kindTypes[dk])
+			// the destination holds something already: CopyTo must replace it, whatever the source is
+			switch e := dp.Elem(); e.Kind() {
+			case reflect.String:
+				e.SetString("stale")
+			case reflect.Slice:
+				e.SetBytes([]byte("stale"))
+			case reflect.Bool:
+				e.SetBool(true)
+			case reflect.Int, reflect.Int8, reflect.Int16, reflect.Int32, reflect.Int64:
+				e.SetInt(7)
+			case reflect.Uint, reflect.Uint8, reflect.Uint16, reflect.Uint32, reflect.Uint64:
+				e.SetUint(7)
+			case reflect.Float32, reflect.Float64:
+				e.SetFloat(7.5)
+			}
 			dst = dp.Interface()
 		case "pn":
 			dst = reflect.Zero(reflect.PointerTo(kindTypes[dk])).Interface()
